@@ -11,16 +11,17 @@ PROP_OF = {"eq": "C01", "pcmp": "C01", "cmp": "C01", "hash": "C06", "clone": "C0
            "un": "C08", "debug": "C10", "default": "C11", "deref_write": "C18", "deref_read": "C18", "set": None}
 
 
-def behaviours(tier, ck):
+def behaviours(tier, ck, focus="any"):
     """the LIFE vectors of one simulation run (cached by spec hash and seed) + the exhaustive small model"""
     st, outp = dx.tlc_run("MC_Life", "MC_Life_bfs.cfg", "mc_life_bfs", workers=8, timeout=3000)
     if not st["ok"]:
         ck.violation({"kind": "model", "module": "MC_Life", "invariants": st["violated"]}, {"tlc_output": outp, "tail": open(outp).read()[-2000:]})
         return None
     ck.add_model(st)
-    num = 400 if tier == "quick" else 6000
+    num = (400 if tier == "quick" else 6000) if focus == "any" else (120 if tier == "quick" else 1500)
+    cfg = "MC_Life_sim.cfg" if focus == "any" else "MC_Life_sim_%s.cfg" % focus
     sim = "num=%d" % num
-    st2, outp2 = dx.tlc_run("MC_Life", "MC_Life_sim.cfg", "mc_life_sim_%s_%d" % (tier, dx.seed()), workers=1, timeout=3000,
+    st2, outp2 = dx.tlc_run("MC_Life", cfg, "mc_life_sim_%s_%s_%d" % (focus, tier, dx.seed()), workers=1, timeout=3000,
                             simulate=sim, extra=["-depth", "90", "-seed", str(dx.seed())])
     vecs = dx.parse_prints(open(outp2).read(), "LIFE")
     if len(vecs) < num // 2:
@@ -31,11 +32,13 @@ def behaviours(tier, ck):
     return vecs
 
 
-def life_stage(ck, tier, props, transform=None, tag="life", coherent_only=False):
+def life_stage(ck, tier, props, transform=None, tag="life", coherent_only=False, focus="any"):
     """props: the properties whose calls are judged in this run (others are still executed: they move the state)"""
-    vecs = behaviours(tier, ck)
+    vecs = behaviours(tier, ck, "any")
     if vecs is None:
         return
+    if focus != "any":
+        vecs = vecs + (behaviours(tier, ck, focus) or [])
     # keep the behaviours that contain a call of the wanted properties
     want = set(props)
     vecs = [v for v in vecs if any(PROP_OF.get(x["act"]) in want for x in v["hist"]) and (not coherent_only or v["L"]["mode"] == "coherent")]
